@@ -25,6 +25,7 @@ Constructor: `cm_ctor_sound` / `cm_ctor_full_false` (the current 32-bit size pro
 with a too-small array; open known finding `ctor-size-product-overflow`, witness replayed by the check).
 -/
 import DSProofs.Lemmas.CountMinRat
+import DSGen.CountMin
 namespace DS.CountMin
 set_option linter.unusedSectionVars false
 
@@ -192,7 +193,13 @@ theorem cm_ctor_full_of_wide (p : CtorParams) (hw : 40 ≤ p.arithBits) : cm_cto
     rw [← Nat.pow_add]; exact Nat.pow_le_pow_right (by decide) hw
   exact (construct_some p nh nb seed s hs (by omega)).1
 
-/-- ... and is FALSE for the current code (minBuckets 3, maxCells 2^30, 32-bit product): 4 hashes × 2^30 buckets
+/-- ... in particular for the constructor guard as the header has it NOW (limits and arithmetic width regenerated from
+count_min_impl.hpp on every run) -/
+theorem cm_ctor_full_current :
+    cm_ctor_full ⟨DSGen.countmin_MIN_BUCKETS, DSGen.countmin_MAX_CELLS, DSGen.countmin_SIZE_ARITH_BITS⟩ :=
+  cm_ctor_full_of_wide _ (by decide)
+
+/-- ... and was FALSE for the pinned code (minBuckets 3, maxCells 2^30, 32-bit product): 4 hashes × 2^30 buckets
 is accepted with an empty array.  Replayed on the real code by the fixed history of vlib/props/c14.py. -/
 theorem cm_ctor_full_false : ¬ cm_ctor_full ⟨3, 2 ^ 30, 32⟩ := by
   intro hf
